@@ -454,7 +454,16 @@ def verify(contract: Contract, tier="quick", callee_contracts=None) -> list[OR]:
     eng = Engine(contract, fn, callee_contracts)
     t0 = time.time()
     try:
-        vcs = eng.run()
+        try:
+            vcs = eng.run()
+        except EngineError:
+            raise
+        except (AttributeError, KeyError, TypeError, IndexError) as ex:
+            # a contract clause was evaluated against a program state it was not written for (e.g. the loop now iterates another kind of source):
+            # the contract no longer fits the shape of the code - undecided, and the bounded stand-in takes over; never a checker fault, never a violation
+            import traceback
+            where = traceback.extract_tb(ex.__traceback__)[-1]
+            raise EngineError(f"the contract does not fit the current shape of the code ({type(ex).__name__}: {ex} at {where.filename.split('/')[-1]}:{where.lineno})")
     except EngineError as e:
         out = [OR(id=f"{contract.prop}.A.{contract.qualname}.subset", status=UNKNOWN, kind="A", target=target, role="guard",
                   desc="function within Engine A's subset", detail=f"out of reach: {e}")]
